@@ -701,7 +701,9 @@ def execute(prog, inputs, *, runner="sync", chooser=None, h=None, graph=None, **
             x.horizon = True
         except Pruned:
             x.pruned = True
-        except Exception as e:  # noqa: BLE001
+        except (KeyboardInterrupt, SystemExit):
+            raise
+        except BaseException as e:  # noqa: BLE001 - incl. asyncio.CancelledError reaching the caller: an observable outcome
             x.exc = e
     x.warnings = [str(m.message) for m in w]
     return x
